@@ -6,6 +6,7 @@ package main
 
 import (
 	"fmt"
+	"os"
 	"strings"
 
 	"bytes"
@@ -140,7 +141,18 @@ func newSession(r *hx.Run, rng *gen.Rng, id string, w, h int, rgb, su, ew, sync,
 		}
 		return all
 	}
+	// COLORTERM=truecolor (what most hosts export, inherited by the child of widgets/term): Vaxis then
+	// uses direct colour without any reply saying so; the emulator implements it
+	ct := "0"
+	if rgb {
+		os.Setenv("COLORTERM", "truecolor")
+		ct = "1"
+		r.Count("session-colorterm")
+	} else {
+		os.Unsetenv("COLORTERM")
+	}
 	vx, err := vaxis.New(vaxis.Options{WithConsole: fc, NoSignals: true})
+	os.Unsetenv("COLORTERM")
 	if err != nil {
 		return nil, err
 	}
@@ -185,7 +197,7 @@ func newSession(r *hx.Run, rng *gen.Rng, id string, w, h int, rgb, su, ew, sync,
 		r.Count("reply-exchange-recorded")
 	}
 	sessions++
-	r.Emit("emucaps", string(det))
+	r.Emit("emucaps "+ct, string(det))
 	s.ew = c["explicitWidth"]
 	r.Emit(fmt.Sprintf("caps %d %d %d %d", b01(c["rgb"]), b01(c["styledUnderlines"]), b01(c["explicitWidth"]), b01(c["synchronizedUpdate"])), "-")
 	r.Emit(fmt.Sprintf("size %d %d", w, h), "-")
